@@ -13,6 +13,9 @@
 (*            exactly over rationals, against the solve of the             *)
 (*            concatenated system and the Gaussian conditional on the      *)
 (*            concatenated data (also twice: fantasies of fantasies).      *)
+(*  "list"    IndependentModelList.get_fantasy_model: per-member routing   *)
+(*            of the noise list (None entries) - member k is fantasized    *)
+(*            with its own arguments only.                                 *)
 (*  "machine" source model + fantasy models as data versions: creating a   *)
 (*            fantasy leaves the source untouched; the data of a fantasy   *)
 (*            of a fantasy is the concatenation in order.                  *)
@@ -53,10 +56,13 @@ CodeShapes(MB, IB, TB) ==
                 yb |-> TB2]
 
 \* documented: with model batch B, inputs are B or <<f>> \o B, targets are B or <<f>> \o B, inputs not longer than targets
+\* ("If inputs is of the same (or lesser) dimension as targets ... the fantasy points are the same for each target
+\* batch": the inputs may also lack the leading dimension of a target batch that is the MODEL's own batch)
 Supported(MB, IB, TB) ==
   \/ IB = MB /\ TB = MB
   \/ IB = MB /\ Len(TB) = Len(MB) + 1 /\ Tail(TB) = MB
   \/ Len(IB) = Len(MB) + 1 /\ Tail(IB) = MB /\ TB = IB
+  \/ Len(MB) >= 1 /\ TB = MB /\ IB = Tail(MB)
 Meaning(MB, IB, TB) == IF Len(TB) > Len(MB) THEN TB ELSE MB      \* batch shape of the fantasy model
 
 ShapeCases == {q \in Shapes(MaxRank) \X Shapes(MaxRank + 1) \X Shapes(MaxRank + 1) : Supported(q[1], q[2], q[3])}
@@ -100,6 +106,22 @@ UpdateOK ==
     /\ UpdatedCache(c) = FullSolve(c)
     /\ PredMean(c, UpdatedCache(c)) = CondOnAll(c)
 
+\* ============================ part "list" =====================================================
+\* members: likelihood kinds; noise: <<"-", "-">> (no noise keyword) or a sequence of entries "v" (a tensor) / "N" (None)
+ListKinds == {"homo", "fixed", "fixed+learned"}
+NoKwd == <<"-", "-">>
+ListCases ==
+  {[members |-> <<k1, k2>>, noise |-> nz] : k1 \in ListKinds, k2 \in ListKinds, nz \in {NoKwd} \cup [1..2 -> {"v", "N"}]}
+\* a fixed-noise member needs the noise of its fantasy points; a homoskedastic member is given none
+ListSupported(q) ==
+  IF q.noise = NoKwd THEN \A k \in 1..2 : q.members[k] = "homo"
+  ELSE \A k \in 1..2 : (q.members[k] = "homo") <=> (q.noise[k] = "N")
+\* documented: member k receives its own entry (and nothing when the entry is None)
+OwnKw(q, k) == IF q.noise = NoKwd \/ q.noise[k] = "N" THEN "none" ELSE "v" \o ToString(k)
+\* code-shaped (model_list.py): kwargs = [{**kwargs, "noise": noise_} if noise_ is not None else kwargs for noise_ in noise]
+CodeKw(q, k) == IF q.noise = NoKwd THEN "none" ELSE IF q.noise[k] # "N" THEN "v" \o ToString(k) ELSE "none"
+ListOK == Part = "list" => \A k \in 1..2 : CodeKw(c, k) = OwnKw(c, k)
+
 \* ============================ part "machine" ==================================================
 \* c = [models |-> sequence of [data, parent, psExists], next id]; model 1 is the source
 MInit == [models |-> << [data |-> <<"train">>, parent |-> 0, ps |-> TRUE, touched |-> 0] >>, nf |-> 0]
@@ -120,6 +142,7 @@ Init ==
   /\ out = <<>>
   /\ CASE Part = "shapes"  -> c \in ShapeCases
        [] Part = "update"  -> c \in Instances
+       [] Part = "list"    -> c \in {q \in ListCases : ListSupported(q)}
        [] Part = "machine" -> c = MInit
 
 Next ==
